@@ -4,7 +4,7 @@ import random
 from . import common, isa
 KEYS = ["resclass", "pc", "ccr", "er", "md", "q", "msgs", "con"]
 RULE = ("random write calls (buffer placement, length classes 0,1,2,..,4096, UTF-8 alphabets incl. NUL / newline / backslash / multi-byte), call sequences, "
-        "set_handler for vectors 0-255 followed by a request + boundary + handler step, other call numbers; "
+        "set_handler for vectors 0-255 followed by a request + boundary + handler step (also a request raised while I = 1, kept pending and delivered after an RTE clears I), other call numbers; "
         "distinct = distinct (arguments, outcome, console bytes, messages)")
 SHARD_TIMEOUT = 900
 
@@ -33,6 +33,7 @@ def generate(tier, seed, info):
         er[7] = 0xffff00 - 4 * rnd.randrange(16)
         mem = {}
         ops = ["step"]
+        masked = False
         k = rnd.random()
         arg = rnd.choice([0xffd000, 0x450000, 0xffbf20, 0x5fff00]) + 4 * rnd.randrange(8)
         code = [0x57, 0x00]
@@ -60,12 +61,22 @@ def generate(tier, seed, info):
             mem[arg] = isa.w32(v) + isa.w32(handler)
             mem[handler] = [0x0a, 0x08, 0x56, 0x70]      # INC.B R0L ; RTE
             if 1 <= v <= 63:
-                ops += ["irq:%x" % v, "bnd", "step", "step"]
+                if rnd.random() < 0.35:
+                    # the request arrives while the guest has I = 1: it must stay pending across boundaries and be
+                    # delivered to the installed handler once an RTE restores a CCR with I = 0
+                    masked = True
+                    ret = pc + 0x40
+                    mem[er[7]] = [rnd.randrange(256) & 0x7f] + [(ret >> 16) & 0xff, (ret >> 8) & 0xff, ret & 0xff]
+                    mem[ret] = [0x40, 0xfe]
+                    code += [0x56, 0x70]
+                    ops += ["irq:%x" % v, "bnd", "bnd", "step", "bnd", "step", "step"]
+                else:
+                    ops += ["irq:%x" % v, "bnd", "step", "step"]
         else:
             er[0] = rnd.choice([0, 1, 103, 105, 112, 114, 0x10068, 0x10071, 0xffffffff, rnd.randrange(1 << 32)])
             er[1] = arg
         mem[pc] = code + [0x40, 0xfe]
-        ccr = rnd.randrange(256) & 0x7f
+        ccr = (rnd.randrange(256) & 0x7f) | (0x80 if masked else 0)
         m = ";".join("%x:%s" % (a, isa.hexb(b)) for a, b in mem.items())
         lines.append("id=%x kind=mes tag=%x sock= pc=%x ccr=%x er=%s mem=%s ops=%s" % (
             cid, tag, pc, ccr, ",".join("%x" % x for x in er), m, ",".join(ops)))
